@@ -1,6 +1,129 @@
-/-! Driver entry for property C21 (stub: not implemented yet). -/
-namespace HeartwoodModel.Driver.C21
+import HeartwoodModel.Model.Ids
+import HeartwoodModel.Driver.Util
+/-!
+Driver entry for C21 (textual identifiers). Cases:
 
-def run (_args : List String) : String := "unimplemented"
+* `pk <hex32>` / `did <hex32>` / `rid <hex20>` — print the value, parse the text back.
+  Output `<text> <1|0>` (1 = parsed back to the same value), `fuel` if a conversion ran out of fuel.
+* `pkparse <strhex> <g>` / `didparse …` / `ridparse …` — parse an arbitrary string (UTF-8 bytes in hex).
+  `g` = graph of `multibase::decode` for the bases other than base-58-btc: comma list `<strhex>=<n|b<hex>>`
+  (`n` = error, `b…` = decoded bytes) or `-`.
+  Output `ok <valuehex> <canonical text>` | `err` | `no-graph-point`.
+* `alias <strhex>` / `ua <strhex>` — `Alias::from_str` / `UserAgent::from_str`. Output `ok` | `err`.
+* `cls <from>` — for the 256 code points from `from`: three characters each, `s` for a surrogate, else
+  `0/1` for: the one-character alias; the user agent `/<c>:1/`; the user agent `/a:<c>/`.
+-/
+namespace HeartwoodModel.Driver.C21
+open HeartwoodModel.Driver.Util
+open HeartwoodModel
+
+def text (bs : List Nat) : String := String.ofList (bs.map Char.ofNat)
+
+def hexIn? (s : String) : Option (List Nat) := if s.isEmpty then some [] else if s == "-" then none else hexBytes? s
+
+def codePoints? (bs : List Nat) : Option (List Nat) :=
+  match String.fromUTF8? (ByteArray.mk (bs.map UInt8.ofNat).toArray) with
+  | some s => some (s.toList.map Char.toNat)
+  | none => none
+
+def graphEntry? (s : String) : Option (List Nat × Option (List Nat)) :=
+  match splitOn s '=' with
+  | [k, v] => do
+    let k ← hexIn? k
+    if v == "n" then some (k, none)
+    else if v.startsWith "b" then do let b ← hexIn? (v.drop 1).toString; some (k, some b)
+    else none
+  | _ => none
+
+def graph? (s : String) : Option (List (List Nat × Option (List Nat))) :=
+  if s == "-" then some [] else (splitOn s ',').mapM graphEntry?
+
+def isOk {ε α} : Except ε α → Bool
+  | .ok _ => true
+  | .error _ => false
+
+def isOkEq {ε} (r : Except ε (List Nat)) (v : List Nat) : Bool :=
+  match r with
+  | .ok v' => v' == v
+  | .error _ => false
+
+def showRt (printed : Option (List Nat)) (back : List Nat → Bool) : String :=
+  match printed with
+  | none => "fuel"
+  | some t => s!"{text t} {showBool (back t)}"
+
+def noOther : List Nat → Option (List Nat) := fun _ => none
+
+/-- The string the parser hands to `multibase::decode`. -/
+def query (kind : String) (s : List Nat) : Option (List Nat) :=
+  if kind == "pkparse" then some s
+  else if kind == "didparse" then Ids.stripPrefix Ids.didPrefix s
+  else match Ids.stripPrefix Ids.radPrefix s with
+    | some r => some r
+    | none => some s
+
+def runParse (kind : String) (s : List Nat) (g : List (List Nat × Option (List Nat))) : String :=
+  let missing := match query kind s with
+    | some (c :: cs) => c != 0x7a && (g.find? (fun (e : List Nat × Option (List Nat)) => e.1 == c :: cs)).isNone
+    | _ => false
+  if missing then "no-graph-point" else
+  let other : List Nat → Option (List Nat) := fun q =>
+    match g.find? (fun (e : List Nat × Option (List Nat)) => e.1 == q) with
+    | some (_, r) => r
+    | none => none
+  let (res, print) :=
+    if kind == "pkparse" then (Ids.pkParse other s, Ids.pkPrint)
+    else if kind == "didparse" then (Ids.didParse other s, Ids.didPrint)
+    else (Ids.ridParse other s, Ids.ridPrint)
+  match res with
+  | .error .fuel => "fuel"
+  | .error _ => "err"
+  | .ok v =>
+    match print v with
+    | none => "fuel"
+    | some t => s!"ok {toHex v} {text t}"
+
+def clsOne (c : Nat) : String :=
+  if (0xd800 ≤ c && c ≤ 0xdfff) || c > 0x10ffff then "sss" else
+  showBool (isOk (Ids.aliasParse [c])) ++
+  showBool (Ids.uaParse [0x2f, c, 0x3a, 0x31, 0x2f]).isSome ++
+  showBool (Ids.uaParse [0x2f, 0x61, 0x3a, c, 0x2f]).isSome
+
+def run (args : List String) : String :=
+  match args with
+  | ["pk", k] =>
+    match hexBytes? k with
+    | some k => if k.length != 32 then "bad-op" else
+      showRt (Ids.pkPrint k) (fun t => isOkEq (Ids.pkParse noOther t) k)
+    | none => "bad-op"
+  | ["did", k] =>
+    match hexBytes? k with
+    | some k => if k.length != 32 then "bad-op" else
+      showRt (Ids.didPrint k) (fun t => isOkEq (Ids.didParse noOther t) k)
+    | none => "bad-op"
+  | ["rid", o] =>
+    match hexBytes? o with
+    | some o => if o.length != 20 then "bad-op" else
+      showRt (Ids.ridPrint o) (fun t => isOkEq (Ids.ridParse noOther t) o)
+    | none => "bad-op"
+  | [kind, s, g] =>
+    if kind == "pkparse" || kind == "didparse" || kind == "ridparse" then
+      match hexBytes? s, graph? g with
+      | some s, some g => if (codePoints? s).isNone then "bad-op" else runParse kind s g
+      | _, _ => "bad-op"
+    else "bad-op"
+  | ["alias", s] =>
+    match (hexBytes? s).bind codePoints? with
+    | some cs => if isOk (Ids.aliasParse cs) then "ok" else "err"
+    | none => "bad-op"
+  | ["ua", s] =>
+    match (hexBytes? s).bind codePoints? with
+    | some cs => if (Ids.uaParse cs).isSome then "ok" else "err"
+    | none => "bad-op"
+  | ["cls", f] =>
+    match nat? f with
+    | some f => joinWith "" ((List.range 256).map fun i => clsOne (f + i))
+    | none => "bad-op"
+  | _ => "bad-op"
 
 end HeartwoodModel.Driver.C21
